@@ -46,7 +46,7 @@ def stream_scenarios():
                 for nested in ("no", "qt-second", "qt-third", "qt-deep"):
                     if nested != "no" and slot in (1, 3):
                         continue
-                    for before in ("repeated", "fresh"):
+                    for before in ("repeated", "fresh", "no-key"):
                         fresh_inner = (I("f/", "q1"), I("g/", "q2"))
                         if nested == "no":
                             term = bad
@@ -56,10 +56,13 @@ def stream_scenarios():
                             term = ("qt", fresh_inner[0], fresh_inner[1], bad)
                         else:
                             term = ("qt", fresh_inner[0], fresh_inner[1], ("qt", I("h/", "q3"), I("a/", "y"), bad))
-                        base = list(first if before == "repeated" else new) + ([("dg",)] if quad else [])
+                        nokey = (("bn", "b1"), ("bn", "b2"), ("lit", "plain", "", ""))      # terms that touch no lookup table
+                        base = list(first if before == "repeated" else new if before == "fresh" else nokey) + ([("dg",)] if quad else [])
                         st0 = tuple(list(first) + ([("dg",)] if quad else []))
                         rej = tuple(base[:slot] + [term] + base[slot + 1:])
-                        carry = [tuple([fresh_inner[0], I("d/", "p"), fresh_inner[1]] + ([I("h/", "q3")] if quad else [])),
+                        good = [I("c/", "s"), I("d/", "p"), I("e/", "o"), ("dg",)]
+                        carry = [tuple(base[:slot] + [good[slot]] + base[slot + 1:]),      # the rejected statement, repaired: earlier slots repeat exactly
+                                 tuple([fresh_inner[0], I("d/", "p"), fresh_inner[1]] + ([I("h/", "q3")] if quad else [])),
                                  tuple(list(new) + ([("dg",)] if quad else [])),
                                  st0]
                         out.append({"stream": "QuadStream" if quad else "TripleStream", "cause": cause, "slot": "spog"[slot], "nested": nested,
@@ -170,7 +173,12 @@ def main(tier: str) -> int:
             n_rejecting += 1
             sub = subs[bi % len(subs)]
             # the model stops at the rejection (the stream is failed); the caller carries on regardless
-            carry = [op for op in beh["hist"] if op["op"] == "stmt"][:1] + [
+            # ... first of all with the rejected statement itself, its unencodable term replaced (the earlier slots repeat exactly)
+            good_by_slot = [["iri", "a/", "x"], ["iri", "a/", "x"], ["iri", "b/", "x"], ["dg"]]
+            st_r = rej_ops[0][1]["st"]
+            arity = 4 if c["PType"] == 2 else 3
+            completed = [t for t in st_r[:-1]] + good_by_slot[len(st_r) - 1:arity]
+            carry = [{"op": "stmt", "st": completed}] + [op for op in beh["hist"] if op["op"] == "stmt"][:1] + [
                 {"op": "stmt", "st": [["iri", "a/", "x"], ["iri", "a/", "x"], ["iri", "b/", "x"]] + ([["dg"]] if c["PType"] == 2 else [])},
                 {"op": "stmt", "st": [["iri", "a/", "x"], ["iri", "a/", "y"], ["lit", "l", "", ""]] + ([["iri", "a/", "x"]] if c["PType"] == 2 else [])}]
             beh = {"bad": beh["bad"], "hist": beh["hist"] + carry}
